@@ -1560,3 +1560,137 @@ func callsInUnit(w *World, fn *ssa.Function, suffix string) []*ssa.Function {
 	up(fn, 0)
 	return out
 }
+
+// serialCloseTokens (C18): the serial close of servers older than 5.5.0 is a hand-shake over one channel: the close loop
+// puts a token before each CloseStream, the end listener takes one per stream end while the loop is running — so the
+// next close is issued only after the previous stream's end arrived. That works only with one plain blocking send site
+// (in the close loop, once per iteration, before the close request) and one plain blocking receive site (the end
+// listener); any other operation on the channel — a select with default that "releases the slot", a second receiver —
+// lets two closes overlap.
+func serialCloseTokens(c *Ctx, id string) {
+	w := c.W
+	dataT := w.NamedType("stream", "streamEndNotSupportedData")
+	c.need(dataT != nil, id, "stream.streamEndNotSupportedData")
+	var qf *types.Var
+	if st, ok := dataT.Underlying().(*types.Struct); ok {
+		for i := 0; i < st.NumFields(); i++ {
+			if _, isCh := st.Field(i).Type().Underlying().(*types.Chan); isCh {
+				qf = st.Field(i)
+			}
+		}
+	}
+	c.need(qf != nil, id, "the token channel of the serial close")
+	isQ := func(v ssa.Value) bool {
+		ld, ok := unwrap(v).(*ssa.UnOp)
+		return ok && ld.Op.String() == "*" && fieldOfAddr(ld.X) == qf
+	}
+	type site struct {
+		fn   *ssa.Function
+		in   ssa.Instruction
+		kind string
+	}
+	var sends, recvs, others []site
+	for _, fn := range w.ModFuncs {
+		allInstrs(fn, func(in ssa.Instruction) {
+			switch x := in.(type) {
+			case *ssa.Send:
+				if isQ(x.Chan) {
+					sends = append(sends, site{fn, in, "send"})
+				}
+			case *ssa.UnOp:
+				if x.Op.String() == "<-" && isQ(x.X) {
+					recvs = append(recvs, site{fn, in, "receive"})
+				}
+			case *ssa.Select:
+				for _, stt := range x.States {
+					if isQ(stt.Chan) {
+						others = append(others, site{fn, in, "select"})
+					}
+				}
+			case ssa.CallInstruction:
+				if b, ok := x.Common().Value.(*ssa.Builtin); ok && (b.Name() == "close" || b.Name() == "len") && len(x.Common().Args) == 1 && isQ(x.Common().Args[0]) {
+					others = append(others, site{fn, in, b.Name()})
+				}
+			}
+		})
+	}
+	var bad []string
+	for _, o := range others {
+		bad = append(bad, fmt.Sprintf("%s on the token channel in %s @%s", o.kind, fname(o.fn), w.pos(o.in.Pos())))
+	}
+	if len(sends) != 1 {
+		bad = append(bad, fmt.Sprintf("%d send sites (expected one, in the close loop)", len(sends)))
+	}
+	if len(recvs) != 1 {
+		bad = append(bad, fmt.Sprintf("%d receive sites (expected one, in the end listener)", len(recvs)))
+	}
+	if len(sends) == 1 && len(recvs) == 1 && rootFn(sends[0].fn) == rootFn(recvs[0].fn) {
+		bad = append(bad, "the token is put and taken by the same function "+fname(rootFn(sends[0].fn)))
+	}
+	// the token is put before the close request of the same iteration
+	if len(sends) == 1 {
+		okOrder := false
+		allInstrs(sends[0].fn, func(in ssa.Instruction) {
+			if cc := callOf(in); cc != nil && isInvokeOf(cc, "Client", "CloseStream") && dominatesInstr(sends[0].in, in) {
+				okOrder = true
+			}
+		})
+		if !okOrder {
+			bad = append(bad, "the token is not put before the close request it guards")
+		}
+	}
+	c.Check(len(bad) == 0, id, "serial-close-tokens", 0, "one blocking send before each close request, one blocking receive per stream end, nothing else touches the channel", "the serial-close hand-shake is broken: "+strings.Join(bad, "; ")+" — two close requests can be in flight on a server whose stream table is not thread-safe")
+}
+
+// apiHandlersStateless (C16): the state endpoints render what the stream holds at the time of the request: the
+// handlers of the API that answer with state (offset, followers, status, rebalance) store nothing into the API object
+// or into package-level variables (no cached body, no remembered answer).
+func apiHandlersStateless(c *Ctx, id string) {
+	w := c.W
+	n := 0
+	var bad []string
+	for _, name := range []string{"offset", "followers", "status", "rebalance"} {
+		fn := w.Method("api", "api", name)
+		if fn == nil {
+			continue
+		}
+		n++
+		c.see(fn)
+		for _, f := range withAnon(fn) {
+			allInstrs(f, func(in ssa.Instruction) {
+				st, ok := in.(*ssa.Store)
+				if !ok {
+					return
+				}
+				o := w.Origin(st.Addr)
+				if strings.HasPrefix(o, "&recv.") || strings.HasPrefix(o, "&global(") || strings.HasPrefix(o, "global(") {
+					bad = append(bad, fmt.Sprintf("%s stores into %s @%s", name, o, w.pos(in.Pos())))
+				}
+			})
+		}
+	}
+	c.Check(n >= 3 && len(bad) == 0, id, "api-handlers-stateless", 0, fmt.Sprintf("%d state handlers, none keeps anything between requests", n), "a state endpoint keeps state of its own: "+strings.Join(bad, "; ")+" — a later request is answered from what an earlier one saw")
+}
+
+// neverRecovers (C15/C06/C19): the library is fail-stop: what it cannot handle is a panic that ends the process (an
+// event outside its snapshot, a checkpoint ahead of the bucket, five failed pings, a stream that cannot be opened, a
+// checkpoint load that fails during a rebalance). The module therefore never calls recover(): a recovered panic turns a
+// fatal condition into a running client on a partial or inconsistent basis.
+func neverRecovers(c *Ctx, id string) {
+	w := c.W
+	nPanic := 0
+	var bad []string
+	for _, fn := range w.ModFuncs {
+		allInstrs(fn, func(in ssa.Instruction) {
+			if _, isP := in.(*ssa.Panic); isP {
+				nPanic++
+			}
+			if cc := callOf(in); cc != nil {
+				if b, ok := cc.Value.(*ssa.Builtin); ok && b.Name() == "recover" {
+					bad = append(bad, fname(fn)+" @"+w.pos(in.Pos()))
+				}
+			}
+		})
+	}
+	c.Check(len(bad) == 0 && nPanic >= 20, id, "never-recovers", 0, fmt.Sprintf("%d fatal exits, no recover() anywhere in the module", nPanic), "the module recovers panics: "+strings.Join(bad, "; ")+" — a fatal condition no longer stops the client")
+}
